@@ -38,6 +38,30 @@ def with_empty_frames(data: bytes, positions=(0, 2)) -> bytes:
     return jwire.write_delimited(out)
 
 
+def exact_frames_stream(targets, pad: int = 1) -> bytes:
+    """One statement per frame; frames 2.. have exactly the given byte lengths (the literal of
+    each statement is sized by search), e.g. multiples of 128 whose length prefix starts 0x80."""
+    from mc.terms import I, L  # noqa: PLC0415
+
+    opts = lambda: DR.make_options("triple", (16, 4, 4), 1, True)  # noqa: E731
+    seq = [(I("http://a/s0"), I("http://a/p"), L("first"))]
+    for t in targets:
+        k = max(0, t - 40)
+        for _ in range(12):
+            cand = seq + [(I(f"http://a/s{len(seq)}"), I("http://a/p"), L("x" * k))]
+            data = DR.g_write(cand, "triple", opts())
+            ln = len(jwire.split_delimited(data)[-1])
+            if ln == t:
+                break
+            k = max(0, k + (t - ln))
+        else:
+            raise HarnessError(f"cannot build a frame of exactly {t} bytes")
+        seq = cand
+    for i in range(pad):
+        seq.append((I("http://a/last"), I("http://a/p"), L(str(i))))
+    return DR.g_write(seq, "triple", opts())
+
+
 @functools.cache
 def base_streams(size: str = "small") -> tuple:
     """size: 'small' (fewer, for quick) or 'full'."""
@@ -72,6 +96,10 @@ def base_streams(size: str = "small") -> tuple:
         seq = RT0.scale_seq("names300", 3 if cls == "triple" else 4)[:14]
         data = DR.g_write(seq, cls, DR.make_options(cls, (16, 4, 4), 12, True))
         out.append(_entry(f"mid/{cls}/fs12", cls, data, all(T.is_rdf11(s) for s in seq)))
+    out.append(_entry("exact128/triple", "triple", exact_frames_stream((128, 256, 384)), True))
+    e = _entry("frame20k/triple", "triple", exact_frames_stream((20000,), pad=2), True)
+    e["big"] = True  # (restricted cut / schedule sets in C09 and C10)
+    out.append(e)
     if size == "full":
         # boundary-crossing streams: frames larger than BufferedReader's 8 KiB buffer and than
         # the 16383/16384 varint boundary, many frames, very long strings
